@@ -58,6 +58,10 @@ pub fn apply(lib: Library) -> Result<Library, Vec<Diagnostic>> {
 
     // Split based on the type so that we put all of the data type declarations
     // at the beginning.
+    // The declarations are keyed by name below, so declarations sharing a name
+    // would silently replace one another
+    check_unique_names(&lib)?;
+
     let mut postfix_types = Vec::new();
     let mut types_by_name: HashMap<Id, DataTypeDeclarationKind> = HashMap::new();
     let mut elems_by_name: HashMap<Id, LibraryElementKind> = HashMap::new();
@@ -153,6 +157,52 @@ pub fn apply(lib: Library) -> Result<Library, Vec<Diagnostic>> {
     elements.extend(sorted_ids.iter().filter_map(|id| elems_by_name.remove(id)));
 
     Ok(Library { elements })
+}
+
+/// Returns a diagnostic if two declarations in the library have the same name.
+fn check_unique_names(lib: &Library) -> Result<(), Vec<Diagnostic>> {
+    // Maps the name to whether the declaration is a data type declaration
+    let mut names: HashMap<&Id, bool> = HashMap::new();
+    for element in lib.elements.iter() {
+        let (name, is_type) = match element {
+            LibraryElementKind::DataTypeDeclaration(decl) => {
+                let type_name = match decl {
+                    DataTypeDeclarationKind::Enumeration(decl) => &decl.type_name,
+                    DataTypeDeclarationKind::Subrange(decl) => &decl.type_name,
+                    DataTypeDeclarationKind::Simple(decl) => &decl.type_name,
+                    DataTypeDeclarationKind::Array(decl) => &decl.type_name,
+                    DataTypeDeclarationKind::Structure(decl) => &decl.type_name,
+                    DataTypeDeclarationKind::StructureInitialization(decl) => &decl.type_name,
+                    DataTypeDeclarationKind::String(decl) => &decl.type_name,
+                    DataTypeDeclarationKind::LateBound(decl) => &decl.data_type_name,
+                };
+                (&type_name.name, true)
+            }
+            LibraryElementKind::FunctionDeclaration(decl) => (&decl.name, false),
+            LibraryElementKind::FunctionBlockDeclaration(decl) => (&decl.name, false),
+            LibraryElementKind::ProgramDeclaration(decl) => (&decl.name, false),
+            LibraryElementKind::ConfigurationDeclaration(decl) => (&decl.name, false),
+        };
+
+        if let Some((existing, existing_is_type)) = names.get_key_value(name) {
+            let problem = if is_type && *existing_is_type {
+                Problem::DeclarationNameDuplicated
+            } else {
+                Problem::DefinitionNameDuplicated
+            };
+            return Err(vec![Diagnostic::problem(
+                problem,
+                Label::span(name.span.clone(), "Duplicated declaration"),
+            )
+            .with_context_id("name", name)
+            .with_secondary(Label::span(
+                existing.span.clone(),
+                "First declaration",
+            ))]);
+        }
+        names.insert(name, is_type);
+    }
+    Ok(())
 }
 
 struct DeclarationsGraph {
